@@ -1,5 +1,5 @@
 import Pfb.DriverUtil
-import Pfb.C10.Model
+import Pfb.C10.Props
 open Lean Pfb Pfb.Drv Pfb.C10
 
 def posOf (j : Json) : Except String Pos := do
@@ -29,8 +29,8 @@ def handle (j : Json) : Except String Json := do
     let nodes := (starts.zip ends).map fun (s, e) => Node.mk s e
     let t := FText.ofStr (toStr txt) st
     match statements t nodes with
-    | .ok ps => pure (Json.mkObj [("ok", Json.arr (ps.map pieceJ).toArray)])
-    | .error e => pure (Json.mkObj [("err", errJ e)])
+    | .ok ps => pure (Json.mkObj [("ok", Json.arr (ps.map pieceJ).toArray), ("wp", Json.bool (wellPlacedB t nodes))])
+    | .error e => pure (Json.mkObj [("err", errJ e), ("wp", Json.bool (wellPlacedB t nodes))])
   | "iscb" =>
     let l ← jstr j "line"
     pure (Json.mkObj [("ok", Json.bool (isCommentOrBlank (toStr l)))])
